@@ -465,6 +465,8 @@ def run(chk):
     # in-place = out-of-place, C AEAD clause: the authenticator is fed from the buffer that holds the ciphertext in either layout
     from . import aead
     aead.rule_mac_source(chk, P, 'A1', floor=16)
+    from . import srcdst
+    srcdst.rule_out_reads(chk, P, 'O1', floor=150)
 
 
 if __name__ == '__main__':
